@@ -17,14 +17,14 @@ from pysx.values import SymBool, mkbool
 
 KINDS = ["linux-named", "linux-unnamed", "win-ser", "win-snr", "win-unnamed", "foreign"]
 EBB_KINDS = KINDS[:5]
-NAME_ALPHA = "letters (both cases), digits, space, underscore"
+NAME_ALPHA = "letters (both cases), digits, space, underscore, dot, plus, minus"
 VIDPID = "USB VID:PID=04D8:FD92"
 
 
 def name_char(run, nm):
     c = run.fresh_int(nm)
     run.inputs[nm] = c
-    run._add(z3.Or(z3.And(c >= 65, c <= 90), z3.And(c >= 97, c <= 122), z3.And(c >= 48, c <= 57), c == 32, c == 95))
+    run._add(z3.Or(z3.And(c >= 65, c <= 90), z3.And(c >= 97, c <= 122), z3.And(c >= 48, c <= 57), c == 32, c == 95, c == 46, c == 43, c == 45))
     return c
 
 
@@ -195,7 +195,8 @@ class Check(CheckBase):
         built = [build_port(run, i, k, nlen) for i, k in enumerate(kinds)]
         ports = [b[0] for b in built]
         tags = [b[1] for b in built]
-        es, e3 = self._load(lambda: list(ports))
+        holder = {"list": list(ports)}
+        es, e3 = self._load(lambda: list(holder["list"]))
         # ---- first board ------------------------------------------------------------------------------------
         want_first = None
         for i, k in enumerate(kinds):
@@ -211,6 +212,11 @@ class Check(CheckBase):
         got = es.findPort()
         run.prove("findPort:first-description-match-else-first-id-match", same(got, None if want_first is None else ports[want_first][0]))
         obj = e3.EBB3()
+        if len(ports) >= 2:
+            # an earlier discovery on the same object, when only the later ports were plugged in (no state may carry over)
+            holder["list"] = list(ports[1:])
+            obj.find_first()
+            holder["list"] = list(ports)
         obj.find_first()
         run.prove("find_first:first-description-match-else-first-id-match", same(obj.port_name, None if want_first is None else ports[want_first][0]))
         # ---- listing ----------------------------------------------------------------------------------------
@@ -258,7 +264,11 @@ class Check(CheckBase):
             else:
                 base = ports[j][0]
             needle = flip_case(run, base, "needle_" + layer)
-            res = fn(needle)
+            try:
+                res = fn(needle)
+            except Exception as ex:
+                run.prove("%s:lookup-raises-nothing" % layer, z3.BoolVal(False), info={"raised": repr(ex)[:160]})
+                continue
             member = zor([tb(same(res, p[0])) for p in ports]) if res is not None else True
             run.prove("%s:lookup-result-is-a-listed-port" % layer, tb(member), info={"result": repr(res)})
             earlier = zor([spec_matches(ports[i], needle, layer) for i in range(j)])
@@ -267,7 +277,10 @@ class Check(CheckBase):
         # ---- layers agree (no SNR tag involved) -----------------------------------------------------------
         if "win-snr" not in kinds:
             nd = flip_case(run, ports[j][0] if h == "port" else S(names["ebb3"][jj]) if isinstance(names["ebb3"], list) else ports[j][0], "needle_both")
-            run.prove("layers-agree:lookup", same(es.find_named_ebb(nd), e3.find_named(nd)))
+            try:
+                run.prove("layers-agree:lookup", same(es.find_named_ebb(nd), e3.find_named(nd)))
+            except Exception as ex:
+                run.prove("layers-agree:lookup-raises-nothing", z3.BoolVal(False), info={"raised": repr(ex)[:160]})
 
     # ------------------------------------------------------------------------------------------------
     def replay(self, cex):
@@ -289,10 +302,15 @@ class Check(CheckBase):
             built = [concrete_port(i, k_i, k, nlen) for k_i, k in enumerate(kinds)]
             ports = [b[0] for b in built]
             tags = [b[1] for b in built]
-            es.comports = e3.comports = lambda: list(ports)
+            holder = {"list": list(ports)}
+            es.comports = e3.comports = lambda: list(holder["list"])
             want_first = next((p for p, k in zip(ports, kinds) if desc_match(k)), None) or next((p for p, k in zip(ports, kinds) if id_match(k)), None)
             wf = want_first[0] if want_first else None
             obj = e3.EBB3()
+            if len(ports) >= 2:
+                holder["list"] = list(ports[1:])
+                obj.find_first()
+                holder["list"] = list(ports)
             obj.find_first()
             if es.findPort() != wf or obj.port_name != wf:
                 return {"ports": ports, "findPort": es.findPort(), "find_first": obj.port_name, "expected": wf}
@@ -331,7 +349,10 @@ class Check(CheckBase):
                                  [False] * len(base), [True] * len(base)]
                         for fl in flips:
                             needle = "".join(c.swapcase() if f else c for c, f in zip(base, fl))
-                            res = fn(needle)
+                            try:
+                                res = fn(needle)
+                            except Exception as ex:
+                                return {"ports": ports, "lookup": needle, "layer": layer, "raised": repr(ex)}
                             if res is not None and res not in [p[0] for p in ports]:
                                 return {"ports": ports, "lookup": needle, "layer": layer, "result": res, "problem": "not a listed port"}
                             if res != ports[j][0] and not any(cmatch(ports[x], needle, layer) for x in range(j)):
@@ -356,7 +377,7 @@ class Check(CheckBase):
                 for i in range(len(kinds)):
                     inputs["port%d_digit" % i] = ord(rnd.choice("0123456789"))
                     for k in range(3):
-                        inputs["port%d_name%d" % (i, k)] = ord(rnd.choice("abXY09_"))
+                        inputs["port%d_name%d" % (i, k)] = ord(rnd.choice("abXY09_.+-"))
                 ports = [concrete_port(inputs, i, k, 3)[0] for i, k in enumerate(kinds)]
                 needle = rnd.choice(["abc", "COM3", "/dev/ttyACM1"] + [concrete_port(inputs, i, k, 3)[1] or "zzz" for i, k in enumerate(kinds)])
                 es_n.comports = e3_n.comports = lambda: list(ports)
